@@ -288,7 +288,7 @@ fn judge(
         let mut expect = Sgr::default();
         for i in 0..k {
             if let Item::Seq(p) = &items[i] {
-                sgr.apply(p);
+                let _ = sgr.apply(p);
             }
             if order[i].1 {
                 expect.fg = colour_col(fgi);
@@ -342,7 +342,7 @@ fn judge(
     let mut fin = sgr;
     for it in &items[lead + n..] {
         if let Item::Seq(p) = it {
-            fin.apply(p);
+            let _ = fin.apply(p);
         }
     }
     let restored = fin.is_default() && !pending;
